@@ -280,6 +280,10 @@ func (n *nodeRT) compute(ctx context.Context, ctl *RunCtl, e *Exec, in any) (out
 		if e.Para == "I" || e.Para == "C" || (e.Para == "T" && n.spec.Lazy) {
 			return nil, fmt.Errorf("node %s mid-stream: %w", n.key, ErrSentinel)
 		}
+	case PanicConverter:
+		if e.Para == "I" || e.Para == "C" || (e.Para == "T" && n.spec.Lazy) {
+			return nil, fmt.Errorf("node %s wraps: %w", n.key, ErrSentinel)
+		}
 	}
 	switch n.spec.Kind {
 	case Hash:
@@ -369,6 +373,19 @@ func verifProducer[T any](ctl *RunCtl, p *Producer, sw *schema.StreamWriter[T], 
 }
 
 func emit[T any](n *nodeRT, ctl *RunCtl, chunks []T) *schema.StreamReader[T] {
+	if ctl.Faults[n.key] == PanicConverter {
+		if len(chunks) < 2 {
+			chunks = append(chunks, chunks...)
+		}
+		i := 0
+		return schema.StreamReaderWithConvert(schema.StreamReaderFromArray(chunks), func(c T) (T, error) {
+			i++
+			if i >= 2 {
+				panic("verif-converter-panic@" + n.key)
+			}
+			return c, nil
+		})
+	}
 	var midErr error
 	errAt := 0
 	if ctl.Faults[n.key] == FailMidStream {
@@ -472,6 +489,9 @@ func lambdaV[O any](n *nodeRT) *compose.Lambda {
 			defer ctl.Log.exit(e)
 			ctl.Log.setOpts(e, renderOpts(opts))
 			if n.spec.Kind == Rename {
+				if f := ctl.Faults[n.key]; f >= PanicString && f <= PanicNilDeref {
+					_, _ = n.compute(ctx, ctl, e, V(nil)) // panics at call time
+				}
 				return n.lazyRename(ctx, ctl, e, in), nil
 			}
 			if n.spec.Lazy && ctl.Faults[n.key] < PanicString {
